@@ -34,3 +34,26 @@ Definition mk_cands (statics : list (N * list N * nat * tys)) (dyns : list (N * 
   map (fun '(id, m) => {| c_id := id; c_kind := KDynamic; c_match := fun _ => m |}) dyns.
 Definition obs_resolve (statics : list (N * list N * nat * tys)) (dyns : list (N * bool)) (args : tys) : string :=
   show_outcome (resolve_call (mk_cands statics dyns) args).
+
+(* ---- a standard-library name with exact and dynamic overloads: to_str.
+   Its dynamic overloads (sequences, optionals, tuples) match when the inner lookup of to_str for every component type,
+   made in the scope of the call site, finds a single best overload (builtin/core.rs get_func) - so user overloads of
+   the same name take part in it.  Fuel bounds the nesting depth of the argument type. *)
+Fixpoint all_tys (f : ty -> bool) (ts : tys) : bool := match ts with TNil => true | TCons x r => f x && all_tys f r end.
+
+Fixpoint resolve_to_str (fuel : nat) (statics : list (N * list N * nat * tys)) (args : tys) : outcome :=
+  match fuel with
+  | O => NoOverload
+  | S f =>
+      let inner_ok t := match resolve_to_str f statics (TCons t TNil) with Chosen _ => true | _ => false end in
+      let lib_exact := match args with TCons (TPrim p) TNil => [(100%N, @nil N, 1, TCons (TPrim p) TNil)] | _ => [] end in
+      let dyn_match := match args with
+                       | TCons (TCon (CNat 0) (TCons x TNil)) TNil => inner_ok x
+                       | TCons (TCon (CNat 1) (TCons x TNil)) TNil => inner_ok x
+                       | TCons (TCon CTup xs) TNil => all_tys inner_ok xs
+                       | _ => false
+                       end in
+      resolve_call (mk_cands (statics ++ lib_exact) [(100%N, dyn_match)]) args
+  end.
+Definition obs_resolve_to_str (statics : list (N * list N * nat * tys)) (args : tys) : string :=
+  show_outcome (resolve_to_str 6 statics args).
